@@ -52,6 +52,7 @@ type Parser struct {
 	loadOnce  bool
 	skipValue bool
 	dbuf      *byte
+	depth     int
 }
 
 /** Parser Private Methods **/
@@ -332,7 +333,13 @@ func (self *Parser) Parse() (Node, types.ParsingError) {
 			if self.loadOnce {
 				self.noLazy = false
 			}
-			return self.decodeArray(new(linkedNodes))
+			if self.depth >= types.MAX_RECURSE {
+				return Node{}, types.ERR_RECURSE_EXCEED_MAX
+			}
+			self.depth++
+			n, e := self.decodeArray(new(linkedNodes))
+			self.depth--
+			return n, e
 		}
 		// NOTICE: loadOnce always keep raw json for object or array
 		if self.loadOnce {
@@ -355,7 +362,13 @@ func (self *Parser) Parse() (Node, types.ParsingError) {
 			if self.loadOnce {
 				self.noLazy = false
 			}
-			return self.decodeObject(new(linkedPairs))
+			if self.depth >= types.MAX_RECURSE {
+				return Node{}, types.ERR_RECURSE_EXCEED_MAX
+			}
+			self.depth++
+			n, e := self.decodeObject(new(linkedPairs))
+			self.depth--
+			return n, e
 		}
 		if self.loadOnce {
 			self.p = s
@@ -639,6 +652,12 @@ func (self *Node) skipNextPair() *Pair {
 // Loads parse all json into interface{}
 func Loads(src string) (int, interface{}, error) {
 	ps := &Parser{s: src}
+	// the lazy nodes are loaded by unbounded Go recursion (Node.Interface): validate with the
+	// depth-limited native skipper first, as NewRaw does
+	if _, e := ps.skip(); e != 0 {
+		return 0, nil, ps.ExportError(e)
+	}
+	ps.p = 0
 	np, err := ps.Parse()
 
 	/* check for errors */
@@ -656,6 +675,10 @@ func Loads(src string) (int, interface{}, error) {
 // LoadsUseNumber parse all json into interface{}, with numeric nodes cast to json.Number
 func LoadsUseNumber(src string) (int, interface{}, error) {
 	ps := &Parser{s: src}
+	if _, e := ps.skip(); e != 0 {
+		return 0, nil, e
+	}
+	ps.p = 0
 	np, err := ps.Parse()
 
 	/* check for errors */
